@@ -106,6 +106,7 @@ class _Continue(BaseException):
 
 
 class Frame:
+    overrides = {}   # (module name, global name) -> replacement value (e.g. the unit abstraction for default_units)
     __slots__ = ("locals", "globals", "parent", "cells", "qualname", "fn_node", "filename", "loop_ordinals", "generator_items")
 
     def __init__(self, globals_, parent=None, cells=None, qualname="?", fn_node=None, filename=None):
@@ -130,6 +131,9 @@ class Frame:
                 except ValueError:
                     raise NameError(name)
             f = f.parent
+        ov = Frame.overrides.get((self.globals.get("__name__"), name), Frame)
+        if ov is not Frame:
+            return ov
         if name in self.globals:
             return self.globals[name]
         if hasattr(builtins, name):
